@@ -525,7 +525,7 @@ func genCase(t *rapid.T) Case {
 	for k := 0; k < nf; k++ {
 		c.Frags = append(c.Frags, genFrag(t, pool))
 	}
-	ni := rapid.IntRange(1, 6).Draw(t, "ninsts")
+	ni := rapid.SampledFrom([]int{1, 2, 2, 3, 3, 3, 4, 4, 4, 5, 5, 6, 6}).Draw(t, "ninsts")
 	// sorted: every instance reads its sources in one global order, which keeps the
 	// one-instance-per-CP machine free of rendezvous deadlock (see Live)
 	sorted := rapid.IntRange(0, 9).Draw(t, "portorder") != 0
